@@ -224,6 +224,78 @@ fn locale_dirs() -> Vec<String> {
     v
 }
 
+
+/// C06 / C07 / C08 quantify over every input AND every schedule: the same call made from several threads at once
+/// must give the answer it gives alone (the library has no shared mutable state on the unchanged tree; a cache, a
+/// memo or a lazily initialised table added later must not change an answer).  `threads` workers walk `inputs` from
+/// different starting points (round `r`: each round is one guarded call, so the watchdog sees a deadlock); returns (index, is_maximize, answer) for answers that differ from the
+/// single-threaded ones in `exp`.
+#[cfg(feature = "likely")]
+fn par_sweep(inputs: &std::sync::Arc<Vec<(String, String, String)>>, exp: &std::sync::Arc<Vec<(String, String)>>, threads: usize, r: usize)
+    -> Vec<(usize, bool, String)> {
+    let mut hs = vec![];
+    for t in 0..threads {
+        let (inputs, exp) = (inputs.clone(), exp.clone());
+        hs.push(std::thread::spawn(move || {
+            install_panic_hook_thread();
+            let n = inputs.len();
+            let mut bad: Vec<(usize, bool, String)> = vec![];
+            let start = (t * n / threads + r * 7919) % n.max(1);
+            for k in 0..n {
+                let i = if t % 2 == 0 { (start + k) % n } else { (start + n - k) % n };
+                let (a, b, c) = &inputs[i];
+                let (a, b, c) = (a.as_bytes(), b.as_bytes(), c.as_bytes());
+                let got = std::panic::catch_unwind(|| maximize(a, b, c)).unwrap_or_else(|_| "PANIC (concurrent)".into());
+                if got != exp[i].0 && bad.len() < 4 { bad.push((i, true, got)); }
+                let got = std::panic::catch_unwind(|| minimize(a, b, c)).unwrap_or_else(|_| "PANIC (concurrent)".into());
+                if got != exp[i].1 && bad.len() < 4 { bad.push((i, false, got)); }
+            }
+            bad
+        }));
+    }
+    let mut all = vec![];
+    for h in hs { if let Ok(mut b) = h.join() { all.append(&mut b); } }
+    all
+}
+
+/// one input under contention (the replay form of a `par_*` case): background threads keep the library busy with the
+/// whole key universe while this thread repeats the one call; the first answer that differs from the first one is
+/// returned (or the common answer)
+#[cfg(feature = "likely")]
+pub fn par_one(l: &[u8], s: &[u8], r: &[u8], max: bool) -> String {
+    use std::sync::atomic::{AtomicBool, Ordering};
+    use std::sync::Arc;
+    let (_, _, _, keys) = universe();
+    let keys = Arc::new(keys);
+    let stop = Arc::new(AtomicBool::new(false));
+    let mut hs = vec![];
+    for t in 0..7usize {
+        let (keys, stop) = (keys.clone(), stop.clone());
+        hs.push(std::thread::spawn(move || {
+            let n = keys.len().max(1);
+            let mut i = t * n / 7;
+            while !stop.load(Ordering::Relaxed) {
+                if let Some((a, b, c)) = keys.get(i % n) {
+                    let _ = std::panic::catch_unwind(|| { let _ = maximize(a.as_bytes(), b.as_bytes(), c.as_bytes()); let _ = minimize(a.as_bytes(), b.as_bytes(), c.as_bytes()); });
+                }
+                i += 1;
+            }
+        }));
+    }
+    let call = || if max { maximize(l, s, r) } else { minimize(l, s, r) };
+    let first = call();
+    let mut res = first.clone();
+    for _ in 0..300_000 {
+        let g = call();
+        if g != first { res = g; break; }
+    }
+    stop.store(true, Ordering::Relaxed);
+    for h in hs { let _ = h.join(); }
+    res
+}
+#[cfg(not(feature = "likely"))]
+pub fn par_one(_: &[u8], _: &[u8], _: &[u8], _: bool) -> String { "NOFEATURE".into() }
+
 pub fn run(out: &mut Out, tier: &str, rng: &mut Rng) {
     let thorough = tier == "thorough";
     let (ls, ss, rs, keys) = universe();
@@ -257,6 +329,33 @@ pub fn run(out: &mut Out, tier: &str, rng: &mut Rng) {
                 let (a, b, c) = (a.as_bytes(), b.as_bytes(), c.as_bytes());
                 out.case("maximize", &[a, b, c], || maximize(a, b, c));
                 out.case("minimize", &[a, b, c], || minimize(a, b, c));
+            }
+        }
+        #[cfg(feature = "likely")]
+        {
+            out.comment("every table key from several threads at once: the answers of the single-threaded run (schedules)");
+            let inputs = std::sync::Arc::new(keys.clone());
+            let exp: Vec<(String, String)> = inputs.iter().map(|(a, b, c)| {
+                let (a, b, c) = (a.as_bytes(), b.as_bytes(), c.as_bytes());
+                (gen_call(|| maximize(a, b, c)).unwrap_or_else(|| "PANIC".into()), gen_call(|| minimize(a, b, c)).unwrap_or_else(|| "PANIC".into()))
+            }).collect();
+            let exp = std::sync::Arc::new(exp);
+            let mut bad = vec![];
+            for r in 0..(if thorough { 300 } else { 30 }) {
+                bad.extend(gen_call(|| par_sweep(&inputs, &exp, 8, r)).unwrap_or_default());
+                if bad.len() > 16 { break; }
+            }
+            let mut seen = std::collections::BTreeSet::new();
+            for (i, is_max, got) in bad.into_iter() {
+                if !seen.insert((i, is_max)) { continue; }
+                let (a, b, c) = &inputs[i];
+                out.emit(if is_max { "par_maximize" } else { "par_minimize" }, &[a.as_bytes(), b.as_bytes(), c.as_bytes()], got);
+            }
+            // a few cases are always written, so that the evidence shows the stage ran
+            for i in (0..inputs.len()).step_by((inputs.len() / 8).max(1)) {
+                let (a, b, c) = &inputs[i];
+                out.emit("par_maximize", &[a.as_bytes(), b.as_bytes(), c.as_bytes()], exp[i].0.clone());
+                out.emit("par_minimize", &[a.as_bytes(), b.as_bytes(), c.as_bytes()], exp[i].1.clone());
             }
         }
         out.comment("registered codes outside the CLDR likely-subtags data, each combined with known and unknown neighbours");
